@@ -34,10 +34,20 @@ U32 = 1 << 32
 BOUND_MUL, BOUND_ADD = 64, 4096
 
 
+def _int_shim(x, *a):
+    """`int` as seen by the loader module (module global): int(<symbolic uint32>) keeps the term (python's own int() would demand an exact int)"""
+    if isinstance(x, U32Arr):
+        return x.v if isinstance(x.v, Sym) else int(x.v)
+    if isinstance(x, Sym):
+        return x
+    return int(x, *a)
+
+
 class Requests:
     def __init__(self):
         self.items = []  # (label, bytes term)
         self.iterations = 0
+        self.header_positions = []  # stream position of every chunk header read (a repeated position = the loop is stuck: same bytes, same decisions)
 
 
 class SymInt(int):
@@ -137,9 +147,42 @@ class U32Arr:
         return "<u32>"
 
 
+_FRESH = [0]
+
+
 class SymBytes:
-    def __init__(self, n):
-        self.n = n
+    """bytes of symbolic length and ARBITRARY content: any comparison of (a part of) the content with a constant is a fresh Bool"""
+
+    def __init__(self, n, start=0):
+        self.n, self.start = n, start
+
+    def lstrip(self, *a):
+        return SymBytes(None)
+
+    strip = rstrip = lower = upper = lstrip
+
+    def __getitem__(self, k):
+        if isinstance(k, slice):
+            return SymBytes(None)
+        raise core.NotEncodable("indexing symbolic bytes")
+
+    def _content_test(self):
+        _FRESH[0] += 1
+        if core.ENGINE is None:
+            return False
+        return core.SymBool(core.z3.Bool("content_test_%d" % _FRESH[0]))
+
+    def __eq__(self, o):
+        return self._content_test()
+
+    def __ne__(self, o):
+        r = self._content_test()
+        return (not r) if isinstance(r, bool) else ~r
+
+    def startswith(self, *a):
+        return self._content_test()
+
+    __hash__ = None
 
     def __len__(self):
         return int(self.n) if not isinstance(self.n, Sym) else core.ENGINE.concretize(self.n.t, what="len(bytes)")
@@ -163,6 +206,8 @@ class SymFile:
         if self.reads > self.max_reads:
             raise AssertionError("unwinding bound exceeded: %d reads of a stream of at most a few dozen bytes" % self.reads)
         rest = self.L - self.pos
+        if bool(rest < 0):
+            rest = 0  # position beyond the end (after a seek): nothing left to read
         if n is None or (isinstance(n, int) and n < 0):
             k = rest
         else:
@@ -172,13 +217,18 @@ class SymFile:
                 n = n.sym
             k = n if bool(n <= rest) else rest
             self.req.items.append(("read(%s)" % ("n" if isinstance(n, Sym) else n), k))
+        start = self.pos
         self.pos = self.pos + k
-        return SymBytes(k)
+        return SymBytes(k, start)
 
     def tell(self):
         return self.pos
 
     def seek(self, off, whence=0):
+        if isinstance(off, U32Arr):
+            off = off.v
+        if isinstance(off, SymInt):
+            off = off.sym
         self.pos = off if whence == 0 else (self.L + off if whence == 2 else self.pos + off)
         return self.pos
 
@@ -190,9 +240,12 @@ class CountingBytesIO(io.BytesIO):
     """real stream for the replay; a loader that keeps reading an exhausted stream is stopped (non-termination witness)"""
 
     reads = 0
+    req = None
 
     def read(self, *a):
         self.reads += 1
+        if self.req is not None and a and a[0] == 8 and self.reads > 1:
+            self.req.header_positions.append(self.tell())
         if self.reads > 64:
             raise AssertionError("unwinding bound exceeded: %d reads" % self.reads)
         return io.BytesIO.read(self, *a)
@@ -267,7 +320,7 @@ class NPStub:
             k = len(data)  # concretised: 20 or 8 bytes by the time we are here
             if k % 4:
                 raise ValueError("buffer size must be a multiple of element size")
-            return Header(self.words("w", k // 4))
+            return Header(self.words("w", k // 4, data.start))
         if bool(n % dt.itemsize != 0):
             raise ValueError("buffer size must be a multiple of element size")
         m = n // dt.itemsize if isinstance(n, int) else Sym(n.t / dt.itemsize)
@@ -296,8 +349,21 @@ class Recorder:
         return np.arange(n, *a, **k)
 
 
+def _from_stub(e):
+    """an AttributeError / TypeError raised because a stub object lacks an operation is a gap of the model, not a clean failure of the loader"""
+    import traceback
+
+    if not isinstance(e, (AttributeError, TypeError, NotImplementedError)):
+        return False
+    txt = str(e)
+    if any(k in txt for k in ("SymBytes", "U32Arr", "SymInt", "SymFile", "Header", "Blob", "Field", "NPStub", "Sym'", "SymBool")):
+        return True
+    tb = traceback.extract_tb(e.__traceback__)
+    return bool(tb) and tb[-1].filename.endswith("C20_loaders.py")
+
+
 def _finish(ctx, req, L, outcome):
-    ctx.concrete_equal("the loader returns or raises an Exception (got %s)" % outcome[0], outcome[0] in ("return", "Exception"), True)
+    ctx.concrete_equal("the loader returns or raises an Exception within the unwinding bound", outcome[0] if outcome[0] not in ("return", "Exception") else "ok", "ok")
     for label, b in req.items:
         ctx.true("allocation request `%s` <= %d*L + %d bytes" % (label, BOUND_MUL, BOUND_ADD), b <= BOUND_MUL * L + BOUND_ADD)
 
@@ -313,8 +379,9 @@ def u_stl(ctx):
     saved = stl.np
     try:
         if ctx.sym:
-            words = lambda tag, k: [count]
+            words = lambda tag, k, start=0: [count]
             stl.np = NPStub(ctx, req, words)
+            stl.int = _int_shim
             f = SymFile(L, req)
         else:
             L, count = int(L), int(count)
@@ -331,47 +398,63 @@ def u_stl(ctx):
             raise
         except MemoryError:
             outcome = ("Exception",)
-        except Exception:
+        except Exception as e:
+            if ctx.sym and _from_stub(e):
+                raise core.NotEncodable("stub does not model: %s" % e)
             outcome = ("Exception",)
     finally:
         stl.np = saved
+        stl.__dict__.pop("int", None)
     _finish(ctx, req, L, outcome)
 
 
 def u_glb(ctx):
-    """header + chunk loop of load_glb up to the hand-over to _read_buffers (stubbed)"""
+    """header + chunk loop of load_glb up to the hand-over to _read_buffers (stubbed).
+    The file CONTENT is symbolic byte by byte (b0 .. b_{Lmax-1}), so that re-reading a position after a seek sees the same bytes."""
     import json
     import warnings
+
+    import z3
 
     from trimesh.exchange import gltf
 
     nchunks = ctx.params.get("chunks", 3)
-    L = ctx.int("L", 0, 20 + 8 * nchunks)  # at most `nchunks` complete chunk headers fit: one more read comes back short and ends the loop
-    # header words: magic, version, length, chunk_length, chunk_type ; then per chunk (length, type)
-    free = ctx.params.get("free_magic", False)
-    W = {}
+    Lmax = 20 + 8 * nchunks  # at most `nchunks` complete chunk headers fit: one more read comes back short and ends the loop
+    L = ctx.int("L", 0, Lmax)
+    B = [ctx.int("b%02d" % k, 0, 255) for k in range(Lmax)]
 
-    def word(name, default=None):
-        if name not in W:
-            W[name] = ctx.int(name, 0, U32 - 1)
-        return W[name]
+    def sel(q):
+        if not isinstance(q, Sym):
+            return B[int(q)] if 0 <= int(q) < Lmax else 0
+        r = z3.IntVal(0)
+        for k in reversed(range(Lmax)):
+            r = z3.If(q.t == k, core._term(B[k]), r)
+        return Sym(r)
+
+    def word_at(p):
+        return sel(p) + sel(p + 1) * 256 + sel(p + 2) * 65536 + sel(p + 3) * 16777216
 
     req = Requests()
     saved = (gltf.np, gltf._read_buffers, gltf.json)
     reads = {"n": 0}
     try:
         if ctx.sym:
-            def words(tag, k):
-                if k == 5:
-                    ws = [word("magic"), word("version"), word("length"), word("json_len"), word("json_type")]
-                    # the json.loads stub stands for a JSON chunk that parses ("{}" padded with blanks in the replay): at least 2 bytes
-                    ctx.assume(lib.l_and(ws[3] >= 2, ws[3] <= 16))
-                    return ws
-                reads["n"] += 1
-                req.iterations = reads["n"]
-                if reads["n"] > nchunks + 1:
-                    raise AssertionError("unwinding bound exceeded")
-                return [word("c%d_len" % reads["n"]), word("c%d_type" % reads["n"])]
+            # the json.loads stub stands for a JSON chunk that parses: "{}" padded with blanks, 2..16 bytes long
+            jl = word_at(12)
+            if ctx.pins is None:  # (pinned translator-validation runs use sampled bytes: nothing to assume there)
+                ctx.assume(lib.l_and(jl >= 2, jl <= 16))
+                for k in range(20, min(Lmax, 36)):
+                    want = 0x7B if k == 20 else (0x7D if k == 21 else 0x20)
+                    ctx.assume(lib.l_or(jl <= k - 20, B[k] == want))
+
+            def words(tag, k, start=0):
+                if k == 2:
+                    reads["n"] += 1
+                    req.iterations = reads["n"]
+                    req.header_positions.append(start)
+                    if reads["n"] > nchunks + 1:
+                        raise AssertionError("unwinding bound exceeded: more chunk headers read than fit into the file")
+                return [word_at(start + 4 * i) for i in range(k)]
 
             gltf.np = NPStub(ctx, req, words)
 
@@ -384,18 +467,11 @@ def u_glb(ctx):
                     return getattr(json, k)
 
             gltf.json = J()
+            gltf.int = _int_shim
             f = SymFile(L, req)
         else:
             L = int(L)
-            vals = {k: int(v) for k, v in ctx.values.items() if k not in ("L",)}
-            g = lambda k: int(vals.get(k, 0)) if not isinstance(vals.get(k), dict) else int(vals[k].get("f", 0))
-            data = struct.pack("<5I", g("magic"), g("version"), g("length"), g("json_len"), g("json_type"))
-            jl = g("json_len")
-            js = b"{}" + b" " * max(0, min(jl, 4096) - 2)
-            data += js[: min(jl, 4096)]
-            for i in range(1, nchunks + 2):
-                data += struct.pack("<2I", g("c%d_len" % i), g("c%d_type" % i)) + b"\0" * min(g("c%d_len" % i), 64)
-            data = data[:L] + b"\0" * max(0, L - len(data))
+            data = bytes(int(b) & 255 for b in B[:L])
             orig_frombuffer = np.frombuffer
 
             class R(Recorder):
@@ -406,6 +482,7 @@ def u_glb(ctx):
 
             gltf.np = R(req)
             f = CountingBytesIO(data)
+            f.req = req
         gltf._read_buffers = lambda **kw: {"stub": True}
         try:
             with warnings.catch_warnings():
@@ -416,12 +493,20 @@ def u_glb(ctx):
             raise
         except AssertionError as e:
             outcome = ("unwinding:%s" % e,)
-        except Exception:
+        except Exception as e:
+            if ctx.sym and _from_stub(e):
+                raise core.NotEncodable("stub does not model: %s" % e)
             outcome = ("Exception",)
     finally:
         gltf.np, gltf._read_buffers, gltf.json = saved
+        gltf.__dict__.pop("int", None)
     _finish(ctx, req, L, outcome)
     ctx.true("chunk loop iterations <= L/8 + 1 (every iteration consumes a chunk header)", req.iterations * 8 <= L + 8)
+    hp = req.header_positions
+    if ctx.sym:
+        ctx.true("no chunk-header position is read twice (a repeat means the loop cannot terminate)", lib.l_and(*[hp[i] != hp[j] for i in range(len(hp)) for j in range(i + 1, len(hp))]) if len(hp) > 1 else True)
+    else:
+        ctx.true("no chunk-header position is read twice (a repeat means the loop cannot terminate)", len(set(int(x) for x in hp)) == len(hp))
 
 
 F = "trimesh.exchange."
